@@ -121,12 +121,21 @@ func NewConnection(connection net.Conn, context Context) *Connection {
 // EncryptedWrite encrypts and writes bytes to the connection.
 // The method returns the number of written bytes and an error when writing failed.
 func (con *Connection) EncryptedWrite(b []byte) (int, error) {
+	encrypter := con.getEncrypter()
+	if encrypter == nil {
+		return 0, errors.New("no encrypter")
+	}
+
+	return con.encryptedWrite(encrypter, b)
+}
+
+func (con *Connection) encryptedWrite(encrypter crypto.Encrypter, b []byte) (int, error) {
 	con.writeMutex.Lock()
 	defer con.writeMutex.Unlock()
 
 	var buffer bytes.Buffer
 	buffer.Write(b)
-	encrypted, err := con.getEncrypter().Encrypt(&buffer)
+	encrypted, err := encrypter.Encrypt(&buffer)
 
 	if err != nil {
 		log.Info.Panic("Encryption failed:", err)
@@ -143,6 +152,11 @@ func (con *Connection) EncryptedWrite(b []byte) (int, error) {
 // DecryptedRead reads and decrypts bytes from the connection.
 // The method returns the number of read bytes and an error when reading failed.
 func (con *Connection) DecryptedRead(b []byte) (int, error) {
+	decrypter := con.getDecrypter()
+	if decrypter == nil {
+		return 0, errors.New("no decrypter")
+	}
+
 	// Decrypt the next packet when all decrypted bytes are consumed; packets without data are skipped
 	for con.readBuffer == nil || con.readBuffer.Len() == 0 {
 		if con.buffered == nil {
@@ -166,7 +180,7 @@ func (con *Connection) DecryptedRead(b []byte) (int, error) {
 			return 0, err
 		}
 
-		decrypted, err := con.getDecrypter().Decrypt(io.LimitReader(con.buffered, int64(size)))
+		decrypted, err := decrypter.Decrypt(io.LimitReader(con.buffered, int64(size)))
 		if err != nil {
 			log.Debug.Println("Decryption failed:", err)
 			err = con.connection.Close()
@@ -183,8 +197,15 @@ func (con *Connection) DecryptedRead(b []byte) (int, error) {
 // Write writes bytes to the connection.
 // The written bytes are encrypted when possible.
 func (con *Connection) Write(b []byte) (n int, err error) {
-	if con.getEncrypter() != nil {
-		n, err = con.EncryptedWrite(b)
+	// The session is looked up once; it is deleted when the connection is closed
+	// while data (e.g. a notification) is written.
+	sess := con.context.GetSessionForConnection(con.connection)
+	if sess == nil {
+		return 0, errors.New("connection is closed")
+	}
+
+	if encrypter := sess.Encrypter(); encrypter != nil {
+		n, err = con.encryptedWrite(encrypter, b)
 	} else {
 		con.plain.responseWritten()
 		n, err = con.connection.Write(b)
@@ -192,7 +213,7 @@ func (con *Connection) Write(b []byte) (n int, err error) {
 
 	// A cryptographer which was negotiated by the request whose response
 	// was just written, encrypts from now on.
-	if s, ok := con.context.GetSessionForConnection(con.connection).(*session); ok {
+	if s, ok := sess.(*session); ok {
 		s.didWrite()
 	}
 
